@@ -44,9 +44,10 @@ def plan(tier, seed):
     nshape = 6 if tier == "quick" else 33
     for backend in ("sql", "lmdb"):
         for path in ("ws", "api"):
-            for i in range(4 if tier == "quick" else 8):
-                shards.append({"backend": backend, "path": path, "case_seed": seed * 1009 + i, "part": i,
-                               "parts": 4 if tier == "quick" else 8, "nshape": nshape})
+            for rep in range(1 if tier == "quick" else 4):
+                for i in range(4 if tier == "quick" else 8):
+                    shards.append({"backend": backend, "path": path, "case_seed": seed * 1009 + i + rep * 100, "part": i,
+                                   "parts": 4 if tier == "quick" else 8, "nshape": nshape})
         shards.append({"backend": backend, "path": "cli", "case_seed": seed * 1009 + 77, "part": 0, "parts": 1, "nshape": 3 if tier == "quick" else 8})
         shards.append({"backend": backend, "path": "service", "case_seed": seed * 1009 + 78, "part": 0, "parts": 1, "nshape": 1})
     return shards
